@@ -20,6 +20,9 @@ pub struct Shape {
     pub dsize: u32,
     pub n_lwe: u32,
     pub extra: u32,
+    /// bit 0: the destination is at least as wide as every input (CKKS cases): violations there are
+    /// reported under a separate subject, so that the known res-only-query finding does not mask them
+    pub flags: u32,
     pub seed: u64,
 }
 
@@ -27,7 +30,7 @@ impl Shape {
     pub fn to_json(&self) -> Value {
         json!({"n": self.n, "rank_in": self.rank_in, "rank_out": self.rank_out, "b_res": self.b_res, "k_res": self.k_res,
                "b_in": self.b_in, "k_in": self.k_in, "b_key": self.b_key, "k_key": self.k_key, "dsize": self.dsize,
-               "n_lwe": self.n_lwe, "extra": self.extra, "seed": self.seed})
+               "n_lwe": self.n_lwe, "extra": self.extra, "flags": self.flags, "seed": self.seed})
     }
     pub fn from_json(v: &Value) -> Shape {
         let u = |k: &str| v[k].as_u64().unwrap() as u32;
@@ -44,6 +47,7 @@ impl Shape {
             dsize: u("dsize"),
             n_lwe: u("n_lwe"),
             extra: u("extra"),
+            flags: v["flags"].as_u64().unwrap_or(0) as u32,
             seed: v["seed"].as_u64().unwrap(),
         }
     }
